@@ -27,6 +27,41 @@ func genC16c(g *G, sc *Scenario, tier string) {
 		}
 		return l
 	}
+	if g.P(0.35) {
+		// a client's requests race an administrator who replaces the client's ACL back and forth: every request is
+		// decided by one of the lists that were in force while it was under way, never by a mixture of two
+		sc.Knobs["raceRequests"] = 1
+		lists := [][]any{}
+		for k := 0; k < 2; k++ {
+			var l []any
+			for j := g.Range(1, 3); j > 0; j-- {
+				l = append(l, map[string]any{"Resource": g.Pick(res), "Action": g.Pick([]string{"read", "read", "write"}), "Deny": g.P(0.35)})
+			}
+			lists = append(lists, l)
+		}
+		if g.P(0.4) {
+			// the pair that a check looking at the list twice gets wrong: neither list allows /datasets/a/...
+			lists[0] = []any{map[string]any{"Resource": "/jobs*", "Action": "read", "Deny": false}}
+			lists[1] = []any{map[string]any{"Resource": "/datasets/*", "Action": "read", "Deny": false}, map[string]any{"Resource": "/datasets/a*", "Action": "read", "Deny": true}}
+		}
+		sc.Ops = append(sc.Ops, Op{K: "regClient", S: "cx"}, Op{K: "setACL", S: "cx", A: lists[0]})
+		var flips []Op
+		for k := g.Range(2, 5); k > 0; k-- {
+			flips = append(flips, Op{K: "setACL", S: "cx", A: lists[(len(flips)+1)%2]})
+		}
+		sc.Tasks = append(sc.Tasks, flips)
+		paths := []string{"/datasets/a/entities", "/datasets/a/changes", "/datasets/b/entities", "/jobs", "/datasets/a"}
+		for t := g.Range(1, 3); t > 0; t-- {
+			var ops []Op
+			for k := g.Range(2, 5); k > 0; k-- {
+				ops = append(ops, Op{K: "request", S: "cx", DS: g.Pick(paths)})
+			}
+			sc.Tasks = append(sc.Tasks, ops)
+		}
+		sc.Knobs["schedSeed"] = int64(g.r.Uint64() >> 1)
+		sc.Knobs["preemptPct"] = int64(g.PickInt([]int{20, 50, 80}))
+		return
+	}
 	// state before the concurrent phase
 	for _, id := range ids {
 		if g.P(0.4) {
@@ -92,8 +127,39 @@ func RunSecConcScenario(sc *Scenario) (vd *Verdict) {
 	}
 	auth := map[string]string{"Authorization": "Bearer " + adm}
 	pub, _ := security.ExportRsaPublicKeyAsPem(&r.c1Key.PublicKey)
+	// profile variant "raceRequests": versions of client cx's ACL (0 = the one set before the concurrent phase), how
+	// many replacements have been started / have been answered, and what each request of the client saw
+	cxVersions := [][]aclEntry{nil} // version 0: no ACL at all
+	cxStarted, cxDone := 0, 0
+	cxTok := ""
+	type reqRec struct {
+		path     string
+		code     int
+		from, to int
+	}
+	var reqs []*reqRec
+	toEntries := func(a []any) []aclEntry {
+		b, _ := json.Marshal(a)
+		var l []aclEntry
+		_ = json.Unmarshal(b, &l)
+		return l
+	}
 	do := func(op *Op) int {
 		r.Stats["requests"]++
+		if op.K == "request" {
+			rec := &reqRec{path: op.DS, from: cxDone}
+			reqs = append(reqs, rec)
+			code, _ := r.H.Do("GET", op.DS, map[string]string{"Authorization": "Bearer " + cxTok}, nil)
+			rec.code, rec.to = code, cxStarted
+			r.Stats["client_requests_during_acl_changes"]++
+			return 200
+		}
+		if op.K == "setACL" && op.S == "cx" && sc.Knob("raceRequests", 0) == 1 {
+			cxVersions = append(cxVersions, toEntries(op.A))
+			cxStarted = len(cxVersions) - 1
+			mine := cxStarted
+			defer func() { cxDone = mine }()
+		}
 		switch op.K {
 		case "regClient":
 			b, _ := json.Marshal(security.ClientInfo{ClientID: op.S, PublicKey: []byte(pub)})
@@ -159,6 +225,12 @@ func RunSecConcScenario(sc *Scenario) (vd *Verdict) {
 			preReg[sc.Ops[i].S] = true
 		}
 	}
+	if sc.Knob("raceRequests", 0) == 1 {
+		if cxTok, err = r.clientToken("cx", r.c1Key); err != nil {
+			vd.Verdict, vd.Message = "error", "login of client cx: "+err.Error()
+			return
+		}
+	}
 	s := NewSched()
 	s.schedule = sc.Schedule
 	if len(sc.Schedule) == 0 {
@@ -207,6 +279,23 @@ func RunSecConcScenario(sc *Scenario) (vd *Verdict) {
 	if s.Violation != nil {
 		fail(s.Violation)
 		return
+	}
+	for _, q := range reqs {
+		// (only serving beyond the lists is judged: a refusal is never more than the property allows)
+		explained := q.code == 403 || q.code == 401
+		var want []string
+		for v := q.from; v <= q.to && v < len(cxVersions); v++ {
+			ok, _ := granted(cxVersions[v], q.path, "read")
+			want = append(want, fmt.Sprintf("list %d [%s]: %v", v, aclShape(cxVersions[v]), ok))
+			if ok {
+				explained = true
+			}
+		}
+		r.Stats["request_decisions_checked"]++
+		if !explained {
+			fail(viol("C16", "authorization", "decision-of-no-acl-version", "GET %s by client cx was answered %d while an administrator replaced the client's ACL; none of the lists in force during the request grants it: %s", q.path, q.code, strings.Join(want, "; ")))
+			return
+		}
 	}
 	for _, x := range results {
 		if x.code != 200 {
